@@ -302,6 +302,183 @@ func runC14(seed int64, tier string, sc *Script) map[string]any {
 		evals++
 		reg.Close()
 	}
+	// (a3) the registry refuses to delete index manifests while the referrers of a subject are
+	// deleted one by one, down to none: after every Delete the listing is the set of referrers
+	// still stored, and a refusal is reported as a referrers-index-delete error
+	for ri := 0; ri < 6; ri++ {
+		sc.Case("referrers-index-fault")
+		sc.NonTrivial()
+		reg := newFakeRegistry(regProfile{ReferrersAPI: false, DigestHeaders: ri%2 == 0})
+		repo, err := remote.NewRepository(reg.Host() + "/test/repo")
+		if err != nil {
+			panic(err)
+		}
+		repo.PlainHTTP = true
+		repo.SkipReferrersGC = ri >= 4
+		sb := []byte(fmt.Sprintf(`{"schemaVersion":2,"mediaType":%q,"config":{"mediaType":"application/vnd.oci.empty.v1+json","digest":"sha256:44136fa355b3678a1146ad16f7e8649e94fb4fc21fe77e8310c060f61caaff8a","size":2},"layers":[],"annotations":{"g":"%d"}}`, ocispec.MediaTypeImageManifest, ri))
+		sub := content.NewDescriptorFromBytes(ocispec.MediaTypeImageManifest, sb)
+		if err := repo.Push(ctx, sub, bytes.NewReader(sb)); err != nil {
+			panic(err)
+		}
+		n := 1 + ri%2
+		var ds []ocispec.Descriptor
+		for i := 0; i < n; i++ {
+			b := []byte(fmt.Sprintf(`{"schemaVersion":2,"mediaType":%q,"artifactType":"application/vnd.verif.g","config":{"mediaType":"application/vnd.oci.empty.v1+json","digest":"sha256:44136fa355b3678a1146ad16f7e8649e94fb4fc21fe77e8310c060f61caaff8a","size":2},"layers":[],"subject":{"mediaType":%q,"digest":%q,"size":%d},"annotations":{"i":"%d"}}`,
+				ocispec.MediaTypeImageManifest, sub.MediaType, sub.Digest, sub.Size, i))
+			d := content.NewDescriptorFromBytes(ocispec.MediaTypeImageManifest, b)
+			if err := repo.Push(ctx, d, bytes.NewReader(b)); err != nil {
+				panic(err)
+			}
+			ds = append(ds, d)
+		}
+		reg.mu.Lock()
+		reg.denyIndexDelete = true
+		reg.mu.Unlock()
+		verdict := "ok"
+		for i := 0; i < n && verdict == "ok"; i++ {
+			derr := repo.Delete(ctx, ds[i])
+			var re *remote.ReferrersError
+			if derr != nil && !(errors.As(derr, &re) && re.IsReferrersIndexDelete()) {
+				verdict = "not-reported-as-index-delete-error:" + strings.ReplaceAll(derr.Error(), " ", "_")
+				break
+			}
+			var got, live []string
+			if err := repo.Referrers(ctx, sub, "", func(rs []ocispec.Descriptor) error {
+				for _, r := range rs {
+					got = append(got, r.Annotations["i"])
+				}
+				return nil
+			}); err != nil {
+				verdict = "listing-failed"
+				break
+			}
+			for k, d := range ds {
+				if ok, err := repo.Exists(ctx, d); err == nil && ok {
+					live = append(live, fmt.Sprint(k))
+				}
+			}
+			sort.Strings(got)
+			if ok, err := repo.Exists(ctx, ds[i]); err != nil || ok {
+				// nil or the clean-up error: either way the delete itself has taken effect
+				verdict = fmt.Sprintf("after-delete-%d:deleted-manifest-still-there(err=%v)", i, derr != nil)
+			} else if strings.Join(got, ",") != strings.Join(live, ",") {
+				verdict = fmt.Sprintf("after-delete-%d:listing-is-not-the-live-set(listed=%s,live=%s,err=%v)", i, strings.Join(got, ","), strings.Join(live, ","), derr != nil)
+			}
+		}
+		sc.Op(verdict, "rf fault kind=deny-index-delete-down-to-none pre=%d digesthdr=%v skipgc=%v", n, ri%2 == 0, ri >= 4)
+		evals++
+		reg.Close()
+	}
+	// (a4) the flow around one referrers tag against the Lean flow model: random histories of
+	// pushes and deletes of four referrers, each call with at most one injected fault (the
+	// read of the old index, the push of the new one, the deletion of the old one), with and
+	// without referrers GC; after every call: how it ended, what is listed, what is stored
+	flows := 40
+	if tier == "thorough" {
+		flows = 1500
+	}
+	for fi := 0; fi < flows; fi++ {
+		sc.Case("referrers-flow")
+		sc.NonTrivial()
+		skipGC := fi%3 == 2
+		reg := newFakeRegistry(regProfile{ReferrersAPI: false, DigestHeaders: fi%2 == 0})
+		repo, err := remote.NewRepository(reg.Host() + "/test/repo")
+		if err != nil {
+			panic(err)
+		}
+		repo.PlainHTTP = true
+		repo.SkipReferrersGC = skipGC
+		sb := []byte(fmt.Sprintf(`{"schemaVersion":2,"mediaType":%q,"config":{"mediaType":"application/vnd.oci.empty.v1+json","digest":"sha256:44136fa355b3678a1146ad16f7e8649e94fb4fc21fe77e8310c060f61caaff8a","size":2},"layers":[],"annotations":{"flow":"%d"}}`, ocispec.MediaTypeImageManifest, fi))
+		sub := content.NewDescriptorFromBytes(ocispec.MediaTypeImageManifest, sb)
+		if err := repo.Push(ctx, sub, bytes.NewReader(sb)); err != nil {
+			panic(err)
+		}
+		var ds []ocispec.Descriptor
+		var bs [][]byte
+		for i := 0; i < 4; i++ {
+			b := []byte(fmt.Sprintf(`{"schemaVersion":2,"mediaType":%q,"artifactType":"application/vnd.verif.flow","config":{"mediaType":"application/vnd.oci.empty.v1+json","digest":"sha256:44136fa355b3678a1146ad16f7e8649e94fb4fc21fe77e8310c060f61caaff8a","size":2},"layers":[],"subject":{"mediaType":%q,"digest":%q,"size":%d},"annotations":{"i":"%d"}}`,
+				ocispec.MediaTypeImageManifest, sub.MediaType, sub.Digest, sub.Size, i))
+			ds = append(ds, content.NewDescriptorFromBytes(ocispec.MediaTypeImageManifest, b))
+			bs = append(bs, b)
+		}
+		sc.Def("rl new skipgc=%d", btoi(skipGC))
+		denied := false
+		nops := 3 + rng.Intn(8)
+		for oi := 0; oi < nops; oi++ {
+			k := rng.Intn(4)
+			if oi < 2 {
+				k = oi // something to work on
+			}
+			fault := []string{"none", "none", "none", "idxget", "idxput", "idxdel", "idxdel"}[rng.Intn(7)]
+			isDelete := oi >= 2 && rng.Intn(2) == 0
+			reg.mu.Lock()
+			reg.failIndexGetOnce, reg.failIndexPutOnce, reg.denyIndexDelete = fault == "idxget", fault == "idxput", fault == "idxdel"
+			reg.mu.Unlock()
+			var oerr error
+			if isDelete {
+				oerr = repo.Delete(ctx, ds[k])
+			} else {
+				oerr = repo.Push(ctx, ds[k], bytes.NewReader(bs[k]))
+			}
+			reg.mu.Lock()
+			reg.failIndexGetOnce, reg.failIndexPutOnce, reg.denyIndexDelete = false, false, false
+			reg.mu.Unlock()
+			out := "ok"
+			var re *remote.ReferrersError
+			switch {
+			case oerr == nil:
+			case errors.As(oerr, &re) && re.IsReferrersIndexDelete():
+				out = "cleanup"
+				denied = true
+			default:
+				out = "err"
+			}
+			var listed, live []int
+			lerr := repo.Referrers(ctx, sub, "", func(rs []ocispec.Descriptor) error {
+				for _, r := range rs {
+					var id int
+					fmt.Sscan(r.Annotations["i"], &id)
+					listed = append(listed, id)
+				}
+				return nil
+			})
+			for i, d := range ds {
+				if ok, err := repo.Exists(ctx, d); err == nil && ok {
+					live = append(live, i)
+				}
+			}
+			ans := fmt.Sprintf("out=%s listed=%s live=%s", out, fmtSet(listed), fmtSet(live))
+			if lerr != nil {
+				ans = "listing-failed:" + strings.ReplaceAll(lerr.Error(), " ", "_")
+			}
+			opName := "push"
+			if isDelete {
+				opName = "delete"
+			}
+			sc.Op(ans, "rl %s k=%d fault=%s", opName, k, fault)
+			sc.Count("flow:" + opName + ":" + fault + ":" + out)
+			evals++
+		}
+		if !denied && !skipGC {
+			// superseded index manifests still stored: none (when GC is skipped they stay, and
+			// equal index contents share one manifest, so a count says little)
+			reg.mu.Lock()
+			rp := reg.repo("test/repo")
+			n := 0
+			for _, m := range rp.manifests {
+				if m.mediaType == ocispec.MediaTypeImageIndex {
+					n++
+				}
+			}
+			if _, ok := rp.tags[strings.Replace(sub.Digest.String(), ":", "-", 1)]; ok {
+				n--
+			}
+			reg.mu.Unlock()
+			sc.Op(fmt.Sprint(n), "rl dangling")
+			evals++
+		}
+		reg.Close()
+	}
 	// (b) end to end under concurrency
 	rounds := 12
 	if tier == "thorough" {
